@@ -43,6 +43,8 @@ COMPONENTS = {
 def run(ctx: Ctx) -> None:
     rep = ctx.report
     prog = ctx.prog
+    from .roles import path_map_field as _pmf_role
+    _pmf1 = _pmf_role(ctx)
     ctx.types
     top, nested = find_api_functions(ctx)
     rep.rule("C01.R1", "composer: every parameter reaches the pair list; call sites: every component derives from its producer")
@@ -203,7 +205,7 @@ def run(ctx: Ctx) -> None:
                         # same lookup expression of the evaluation's path map
                         hv = [unparse(d.value, 200) for d in fl.root_defs(hk) if d.value is not None]
                         kv = [unparse(d.value, 200) for d in kd if d.value is not None]
-                        if hv and kv and ("requested_paths" in " ".join(kv)) and (hk.id == k.id or any("requested_paths" in x or "fun_return_sig" in x for x in hv)):
+                        if hv and kv and (_pmf1 in " ".join(kv)) and (hk.id == k.id or any(_pmf1 in x or "fun_return_sig" in x for x in hv)):
                             ok = True
             if ok:
                 rep.ok("C01.R5", f.qname, desc, f.loc(sb))
